@@ -439,7 +439,47 @@ func (e *Engine) Run(t *core.Tape, cfg *core.Config, st *core.Stats) *core.Viola
 	var srcName string
 	var pinned *corpusEntry
 	valid := false // known to be a valid program
-	switch k := t.Weighted([]int{4, 4, 3, 1, 1, 3}); k {
+	switch k := t.Weighted([]int{4, 4, 3, 1, 1, 3, 2}); k {
+	case 6: // valid programs with one very long token or very many tokens (lengths and counts around buffer sizes and powers of two)
+		n := []int{250, 255, 256, 257, 511, 512, 1023, 1024, 4094, 4095, 4096, 4097, 8191, 8192, 8193, 20000, 65535, 65536, 70000}[t.Choose(19)]
+		var sb strings.Builder
+		kind := t.Choose(9)
+		switch kind {
+		case 0: // a long short-string
+			sb.WriteString("local s = \"" + strings.Repeat("a", n) + "\" return #s")
+		case 1: // a long long-string with line ends inside
+			sb.WriteString("local s = [==[" + strings.Repeat("ab\n", n/3) + "]==] return #s")
+		case 2: // a long identifier
+			id := "v" + strings.Repeat("x", n)
+			sb.WriteString("local " + id + " = 1 return " + id)
+		case 3: // a long numeral
+			sb.WriteString("return 1" + strings.Repeat("0", n%300) + " + 0." + strings.Repeat("0", n) + "1")
+		case 4: // a long line comment and a long block comment
+			sb.WriteString("--" + strings.Repeat("c", n) + "\nlocal a = 1 --[[" + strings.Repeat("d", n) + "]] return a")
+		case 5: // many blank lines
+			sb.WriteString("local a = 1" + strings.Repeat("\n", n) + "return a")
+		case 6: // many statements
+			m := n
+			if m > 9000 {
+				m = 9000
+			}
+			sb.WriteString("local a = 0\n")
+			for i := 0; i < m; i++ {
+				sb.WriteString("a = a + 1\n")
+			}
+			sb.WriteString("return a")
+		case 7: // many string escapes
+			sb.WriteString("local s = \"" + strings.Repeat("\\n\\065\\\\", n/3) + "\" return #s")
+		default: // a long chain of operators
+			m := n
+			if m > 5000 {
+				m = 5000
+			}
+			sb.WriteString("local a = 1 return a" + strings.Repeat(" + a", m))
+		}
+		src, srcName = sb.String(), fmt.Sprintf("long-token-kind%d-%d", kind, n)
+		valid = true
+		st.Probe("long_token_program")
 	case 5: // grammatical programs that hit the compiler's own error paths (goto/label/break/vararg/limit checks) in random nesting contexts
 		src = compileEdgeProgram(t)
 		srcName = "compile-edge"
